@@ -160,6 +160,10 @@ Fixpoint e_str (c : cfg) (e : expr) {struct e} : str :=
       else e_str c x ++ c_quant c q
   end.
 
+(* format!("\\u{:04x}", c): backslash, u, at least four lower-case hex digits *)
+Definition esc_u4 (c : cp) : str :=
+  let h := hex_of_N c in [c_backslash; 117%N] ++ repeat 48%N (4 - length h) ++ h.
+
 (* ---------- str::lines ---------- *)
 Fixpoint split_nl (s : str) (cur : str) : list str :=
   match s with
@@ -171,10 +175,13 @@ Definition strip_cr (l : str) : str :=
   | x :: r => if N.eqb x c_cr then rev r else l
   | [] => l
   end.
+(* pieces terminated by \n lose one trailing \r; the unterminated last piece is kept as it is
+   (a bare trailing \r is not a line ending) and dropped when empty *)
 Definition lines (s : str) : list str :=
-  let ls := split_nl s [] in
-  let ls := match rev ls with [] :: r => rev r | _ => ls end in      (* a final empty piece is dropped *)
-  map strip_cr ls.
+  match rev (split_nl s []) with
+  | [] => []
+  | last :: r => map strip_cr (rev r) ++ (match last with [] => [] | _ => [last] end)
+  end.
 
 (* ---------- the SGR stripping regex  ESC \[ (?: \d+;\d+ | 0 ) m ---------- *)
 Section Sgr.
@@ -278,7 +285,7 @@ Section Sgr.
     let r := replace_cp 12%N [c_backslash; 102%N] r in
     if f_verbose c then
       let r := replace_cp 35%N [c_backslash; 35%N] r in
-      let r := flat_map (fun x => if mem_cp x verbose_ws then esc_unicode x else [x]) r in
+      let r := flat_map (fun x => if mem_cp x verbose_ws then esc_u4 x else [x]) r in
       let r := replace_cp c_space [c_backslash; c_space] r in
       indent_regexp c r
     else r.
